@@ -212,6 +212,17 @@ pub mod cases {
             checks: &[AttrsHave("pubstructMessage{", "automatic_tags"), ItemHas("pubstructMessage{", "pubversion:Integer,pubbody:MessageBody"), AttrsHave("pubenumReply{", "automatic_tags"),
                       ItemHas("pubenumReply{", "code(Integer),body(ReplyBody)"), AttrsHave("pubstructPlainMessage{", "automatic_tags"),
                       ItemHas("pubstructManual{", "#[rasn(tag(context,5))]pubversion:Integer"), ItemHas("pubstructManual{", "#[rasn(tag(context,6))]pubbody:ManualBody")] },
+        // ---- C04 / C06: the extension marker written after an included type is kept: `(T, ...)` is an extensible constraint
+        Case { ob: "C04.cases.marker_after_a_type_inclusion_makes_the_bound_extensible", srcs: &["M DEFINITIONS AUTOMATIC TAGS ::= BEGIN
+            T ::= SEQUENCE { e INTEGER (INTEGER (0..255), ...), f INTEGER (INTEGER (0..255)), g INTEGER (INCLUDES INTEGER (0..255), ...), h OCTET STRING (SIZE (INTEGER (1..4), ...)) }
+            A ::= INTEGER (INTEGER (0..255), ...)
+            END"],
+            checks: &[ItemHas("pubstructT{", "#[rasn(value(\"0..=255\",extensible))]pube:"), ItemHas("pubstructT{", "#[rasn(value(\"0..=255\"))]pubf:u8"), ItemHas("pubstructT{", "#[rasn(value(\"0..=255\",extensible))]pubg:"),
+                      AttrsHave("pubstructA(", "value(\"0..=255\",extensible)")] },
+        Case { ob: "C06.cases.extensible_type_inclusion_written_inline_is_not_fixed_width", srcs: &["M DEFINITIONS AUTOMATIC TAGS ::= BEGIN
+            T ::= SEQUENCE { e INTEGER (INTEGER (0..255), ...), f INTEGER (INTEGER (0..255)), g INTEGER (INCLUDES INTEGER (0..255), ...) }
+            END"],
+            checks: &[ItemHas("pubstructT{", "pube:Integer"), ItemHas("pubstructT{", "pubf:u8"), ItemHas("pubstructT{", "pubg:Integer")] },
         // ---- C06: an extensible type inclusion never selects a fixed width
         Case { ob: "C06.cases.extensible_type_inclusion_is_not_fixed_width", srcs: &["M DEFINITIONS AUTOMATIC TAGS ::= BEGIN
             Small ::= INTEGER (0..255)
